@@ -4,13 +4,22 @@ from common import sh2
 
 LEVEL = "proof"
 MANIFEST = {
-    "technique": "Coq proof over a hand-written Gallina model of mp4/crypto.go (protect ranges, getAVC/HEVCPSMaps + prot funcs, IV increment, "
+    "technique": "Coq proof over a hand-written Gallina model of mp4/crypto.go (protect ranges incl. the 64-bit bounds check, getAVC/HEVCPSMaps + prot funcs, IV increment, "
                  "CTR/CBC-pattern sample crypt, EncryptFragment loop and EncryptFragment over the bytes of a fragment, saiz/senc/saio) "
                  "composed with the C15 Gallina models of avc/hevc.ParseSliceHeader on the C13 EBSP reader model, the C06 byte model of "
                  "senc/saiz/saio and C05's SetTrunDataOffsets (read-only imports) + differential correspondence (extracted OCaml, "
                  "instantiated with an AES-128 written in Gallina from FIPS-197, vs the Go code incl. the encrypted bytes and the encoded "
                  "boxes) + failing-input search on real EncryptFragment output",
-    "level_text": "Theorems (coq/c07/C07Theorems.v, 29, all closed), for all NALU layouts, sizes, keys, IVs and EVERY block cipher E: the "
+    "level_text": "Theorems (coq/c07/C07Theorems.v, 34, all closed), for all NALU layouts, sizes, keys, IVs and EVERY block cipher E: for EVERY "
+                  "BYTE STRING Get(AVC|HEVC)ProtectRanges accept (no hypothesis that it is a concatenation of NAL units; any scheme; both "
+                  "codecs over the C15 slice-header parsers) the sub-sample entries add up to the size of the sample, clear counts fit 16 "
+                  "bits and there is at least one entry (C07_ranges_cover_any_bytes: the prot_in_sample / covered-r hypotheses of the "
+                  "fragment theorems for the functions EncryptFragment really calls), and the loop ends within |sample| iterations "
+                  "(C07_ranges_terminate); both false of the text before /repo fix 2ef93b3 (uint32 sum pos+naluLength wrapped: the loop "
+                  "never ended / panicked / returned entries adding up to 2^32+size; C07_wrap_pinned_refuted, finding C07-F6); the "
+                  "current text returns what the old text returned or refuses, and equals it on every concatenation of NAL units below "
+                  "2^32 bytes (C07_ranges_current_text), so the theorems below stated for protect_ranges_r hold of it "
+                  "(C07_partition_shape_current restates partition + shape); the "
                   "sub-sample entries partition the sample with every clear count < 2^16 for EVERY non-empty list of NAL units of any "
                   "sizes, 0 (bare length field), 1, 2 included (C07_partition / C07_cenc_shape; text since /repo fix 401deba, the text "
                   "before it refuted: C07_partition_pinned_refuted); every accepted video sample has at least one entry "
@@ -43,8 +52,9 @@ MANIFEST = {
                   "(CTR = 128-bit big-endian counter, byte-wise keystream continuation), GetFullSamples, the box encoders of the boxes "
                   "EncryptFragment does not touch (taken as bytes), the size fields of moof/traf (recomputed by Fragment.Encode; C05/C06); "
                   "trun.data_offset is modelled as moof size + 8 (C05 set_offsets, composed in C07_offsets_grow_struct). "
-                  "C07Model.protect_ranges / senc_add keep the text before the fixes 401deba / ecf1460 because coq/c06 imports them; the "
-                  "theorems and the driver use protect_ranges_r (current text); on the uniform fragments EncryptFragment can now only "
+                  "C07Model.protect_ranges / senc_add keep the text before the fixes 401deba / ecf1460 and protect_ranges_r the text before "
+                  "2ef93b3 because coq/c06 imports C07Model; the driver runs C07WrapModel.protect_ranges_w (current text), related to "
+                  "protect_ranges_r by C07_ranges_current_text; on the uniform fragments EncryptFragment can now only "
                   "build, senc_add and C06's senc_add_r agree (C06_senc_repaired_agrees). "
                   "The Gallina AES is only the independent comparison cipher (validated against the FIPS-197 vectors inside Coq).",
 }
@@ -65,7 +75,8 @@ def run(ctx):
         "model: coq/c07/C07Model.v is a hand transcription of mp4/crypto.go (GetAVC/HEVCProtectRanges, AppendProtectRange, "
         "CryptSampleCenc, cryptSampleCbcs, cbcsCrypt, incrementIV, EncryptFragment loop + saio offset), SaizBox.AddSampleInfo, "
         "SencBox.AddSample/EncodeSWNoHdr; C07CodecModel.v: getAVCPSMaps/getHEVCPSMaps/get*ProtFunc over the C15 parser models; "
-        "C07TrafModel.v: EncryptFragment over the bytes of a fragment with the C06 encoders of senc/saiz/saio",
+        "C07TrafModel.v: EncryptFragment over the bytes of a fragment with the C06 encoders of senc/saiz/saio; C07WrapModel.v: "
+        "Get(AVC|HEVC)ProtectRanges as they read since /repo 2ef93b3 (the text the driver runs)",
         "imported models (read-only): coq/c15/C15Model.v, C15HevcModel.v (parameter sets, slice headers), coq/c13/C13Model.v (EBSP reader), "
         "coq/c06/C06SencModel.v, coq/c05/C05FragModel.v + C05OffProofs.v (SetTrunDataOffsets)",
         "spec: coq/c07/C07Spec.v (per-byte mask of the property, reference CTR keystream, reference walk), written by hand",
@@ -104,12 +115,21 @@ def run(ctx):
         classes[c] = classes.get(c, 0) + 1
     ctx.cov["evaluations"] += len(lines)
     ctx.cov["distinct_nontrivial"] += distinct
+    # the model driver evaluates the conclusion of C07_ranges_cover_any_bytes on every R/Q/H sample the model accepts (a
+    # violated conclusion is a MISMATCH line); accepted = the code accepted it too (no mismatch) or the case is reported
+    acc = [l for l in lines if l[:2] in ("R\t", "Q\t", "H\t") and l.rsplit("\t", 1)[-1].startswith("ok:")]
+    ctx.notes["cover_theorem_applied"] = {
+        "theorem": "C07_ranges_cover_any_bytes (entries add up to the sample size, clear counts < 2^16, >= 1 entry)",
+        "accepted_samples_checked": len(acc), "of_range_cases": sum(kinds.get(k, 0) for k in ("R", "Q", "H")),
+        "from_the_malformed_and_wrap_streams_R": sum(1 for l in acc if l.startswith("R\t"))}
     ctx.notes["correspondence"] = {
         "cases": len(lines), "mismatches": len(mism), "distinct_cases": distinct, "kinds": kinds, "outcome_classes": classes,
         "bytes_of_cases": len(cases),
         "distribution": "A AppendProtectRange at the 65535/65536 boundaries; I/J incrementIV(InPlace) with 0/1/4/8/16-byte IVs, ff-carries, "
                         "steps up to 2^62; R protect ranges AVC+HEVC cenc/cbcs on NALU size mixes around 1,15-17,91-141,255-257, 65531-131071 "
-                        "(+ a malformed stream: truncations, trailing bytes, bad/empty length fields, 32-bit wrap on video NALUs); "
+                        "(+ a malformed stream: truncations, trailing bytes, bad/empty length fields; + length fields whose uint32 sum with the "
+                        "position wraps: non-video / video NAL unit ending at any position of the sample, wrap back INTO a protected NAL unit, "
+                        "exact-end controls, 0xffffffff / 0x80000000 / 2^32-pos-4: calls under a 3 s budget, outcome class hang); "
                         "C CryptSampleCenc on arbitrary maps incl. maps beyond the sample, bad key/IV sizes; B/K cbcs both directions, "
                         "patterns 1:9, 0:0 and others; F EncryptFragment (AVC/HEVC/audio, cenc/cbcs, 8/16-byte IVs, extra boxes): senc state, "
                         "IVs, sub-sample maps, saiz, encoded senc entries, saio offset, encrypted bytes; Q/H protect ranges where the model "
@@ -166,7 +186,7 @@ def run(ctx):
     ctx.cov["rule"] = ("corr: %d case lines (kinds %s); distinct = distinct case lines; search: %d random fragments through InitProtect/"
                        "EncryptFragment/encode/decode with the clauses of the property evaluated in the harness (partition, per-byte shape, "
                        "saiz/saio vs the encoded senc, IV sequence, Go crypto/aes driven by the harness' own CTR / CBC-pattern loops, "
-                       "trun/tfdt unchanged, box-by-box diff of the encoded clear and encrypted files (same boxes + saiz/saio/senc, trun data offset shifted by the added bytes, mdat equal outside the senc maps), every sample read from the RAW encoded file at moof start + trun.data_offset + sizes before = reference cipher output; 1/5 of the video fragments carry empty NAL units (trailing / inside for cenc / the 4-byte sample), 1/12 a clear run of exactly 65534..65537 / 131070..131072 bytes; 1/3 of the video fragments use a synthetic HEVC configuration whose slice header sizes are known from the harness' bit writer; unusual-but-valid NALU placements in every second video fragment; 0-2 other encrypted fragments in front (non-zero moof start), InitProtectData via ExtractInitProtectData on the re-decoded init in 1/4 of the runs, AES-192/256 keys in 1/9; 2/5 of the runs without OptimizeTrun are read against an init whose trex has non-trivial defaults (built before InitProtect; the same init is protected, encoded, decoded and used by every oracle step) and signal sample size / duration / flags per sample in trun, as tfhd defaults or ONLY through that trex (constant-size samples, first-sample-flags), with decoy trex values where the fragment signals the field itself: counts in notes.search_notes.fragments_with_*)" % (len(lines), kinds, ns))
+                       "trun/tfdt unchanged, box-by-box diff of the encoded clear and encrypted files (same boxes + saiz/saio/senc, trun data offset shifted by the added bytes, mdat equal outside the senc maps), every sample read from the RAW encoded file at moof start + trun.data_offset + sizes before = reference cipher output; 1/5 of the video fragments carry empty NAL units (trailing / inside for cenc / the 4-byte sample), 1/12 a clear run of exactly 65534..65537 / 131070..131072 bytes; 1/3 of the video fragments use a synthetic HEVC configuration whose slice header sizes are known from the harness' bit writer; unusual-but-valid NALU placements in every second video fragment; 0-2 other encrypted fragments in front (non-zero moof start), InitProtectData via ExtractInitProtectData on the re-decoded init in 1/4 of the runs, AES-192/256 keys in 1/9; n/10+20 samples with a NAL unit length field near 2^32 straight through Get(AVC|HEVC)ProtectRanges under a 3 s budget (refused or partitioned; never hang / panic); 2/5 of the runs without OptimizeTrun are read against an init whose trex has non-trivial defaults (built before InitProtect; the same init is protected, encoded, decoded and used by every oracle step) and signal sample size / duration / flags per sample in trun, as tfhd defaults or ONLY through that trex (constant-size samples, first-sample-flags), with decoy trex values where the fragment signals the field itself: counts in notes.search_notes.fragments_with_*)" % (len(lines), kinds, ns))
 
 
 def replay(ctx, path):
